@@ -190,7 +190,7 @@ func init() {
 		},
 		Subs: []h.Sub{
 			{
-				Name: "round-trip-all-paths", Count: h.Fixed(4000, 300000),
+				Name: "round-trip-all-paths", Count: h.Fixed(4000, 2500000),
 				Run: func(c *h.Ctx, idx uint64, r *h.Rand) {
 					depth := r.Intn(5)
 					if c.Thorough() && r.P(1, 10) {
